@@ -29,6 +29,10 @@ func parseTree(s string) *tree.Tree {
 	return t
 }
 
+func tryParse(s string) (*tree.Tree, error) {
+	return newick.NewParser(strings.NewReader(s)).Parse()
+}
+
 func parseAlign(s string) align.Alignment {
 	a, err := fasta.NewParser(strings.NewReader(s)).Parse()
 	if err != nil {
